@@ -603,6 +603,20 @@ func passG(repo string, cfg *vc.SolverConfig, only, corpus, scratch string, thor
 				gm2.verifyClosure(w, jc)
 			}
 		}
+		// the argument helpers the call sites were rewritten to
+		nargs := 0
+		var helperNames []string
+		for name, fn := range lrm.Funcs {
+			if strings.HasPrefix(name, modPrefix) && gm2.isModArgHelper(fn) {
+				helperNames = append(helperNames, name)
+			}
+		}
+		sort.Strings(helperNames)
+		for _, name := range helperNames {
+			nargs++
+			gm2.verifyModArg(lrm.Funcs[name], name)
+		}
+		res.Extra["modifier_arg_helpers"] = nargs
 		structural(sink, "role:unrecognised", "shape", "every-enqueued-closure-of-a-modifier-flow-has-a-role", []string{"C20"}, nmod > 0, fmt.Sprintf("%d modifier-mode flows", nmod))
 		res.Extra["modifier_flows"] = nmod
 		os.RemoveAll(gm.work)
